@@ -7,6 +7,7 @@ mod c06;
 mod c07bash;
 mod c09bash;
 mod c13;
+mod c16;
 mod cpipe;
 mod csem;
 mod gram;
@@ -96,6 +97,7 @@ fn main() {
             "c07_bash" => c07bash::replay(&args[3..]),
             "c09_bash" => c09bash::replay(&args[3..]),
             "c04_tables" => c04::replay(&args[3..]),
+            "c16_dumps" => c16::replay(&args[3..]),
             "c13_locations" | "c13_cli" => c13::replay(&args[2], &args[3..]),
             "c11_choice" | "c15_warnings" | "c08_classify" => csem::replay(&args[2], &args[3..]),
             "c06_spans" => c06::replay_spans(&args[3..]),
@@ -133,6 +135,7 @@ fn main() {
         "c07_bash" => c07bash::run(thorough),
         "c09_bash" => c09bash::run(thorough),
         "c04_tables" => c04::run(thorough, seed),
+        "c16_dumps" => c16::run(thorough, seed),
         "c13_locations" => c13::run_library(thorough),
         "c13_cli" => c13::run_cli(thorough),
         "c11_choice" => csem::c11(thorough),
